@@ -192,15 +192,24 @@ TimerFire ==
 \* and the second half of an unlock follows the first.
 Urgent(c) == \/ pc[c] \in {"done", "u2"}
              \/ pc[c] = "run" /\ ENABLED Step(c)
-NextG == IF \E c \in Callers : Urgent(c)
-           THEN \E c \in Callers : Urgent(c) /\ (StepL(c) \/ End(c))
-           ELSE \/ \E c \in Callers : (\E r \in Requests : Start(c, r)) \/ StepL(c)
-                \/ TimerFire
+AnyUrgent == \E c \in Callers : Urgent(c)
+MayMove(c) == GenMode => (AnyUrgent => Urgent(c))
+Lbl(c) == Emit([op |-> "Step", c |-> c, at |-> pc[c], kind |-> rq[c].op, chk |-> Chk])
 
-NextF == \/ \E c \in Callers : (\E r \in Requests : Start(c, r)) \/ StepL(c) \/ End(c)
-         \/ TimerFire
+\* one named action per critical section (so that -coverage reports each of them)
+AStart   == \E c \in Callers, r \in Requests : (GenMode => ~AnyUrgent) /\ Start(c, r)
+AObserve == \E c \in Callers : MayMove(c) /\ DoObserve(c) /\ Lbl(c)
+ALock    == \E c \in Callers : MayMove(c) /\ DoLock(c) /\ Lbl(c)
+ASecret  == \E c \in Callers : MayMove(c) /\ DoSecret(c) /\ Lbl(c)
+AUnlock1 == \E c \in Callers : MayMove(c) /\ DoUnlock1(c) /\ Lbl(c)
+AUnlock2 == \E c \in Callers : MayMove(c) /\ DoUnlock2(c) /\ Lbl(c)
+ASP1     == \E c \in Callers : MayMove(c) /\ DoSP1(c) /\ Lbl(c)
+ASP2     == \E c \in Callers : MayMove(c) /\ DoSP2(c) /\ Lbl(c)
+ASP3     == \E c \in Callers : MayMove(c) /\ DoSP3(c) /\ Lbl(c)
+AEnd     == \E c \in Callers : MayMove(c) /\ End(c)
+ATimer   == (GenMode => ~AnyUrgent) /\ TimerFire
 
-Next == IF GenMode THEN NextG ELSE NextF
+Next == AStart \/ AObserve \/ ALock \/ ASecret \/ AUnlock1 \/ AUnlock2 \/ ASP1 \/ ASP2 \/ ASP3 \/ AEnd \/ ATimer
 Spec == Init /\ [][Next]_vars
 
 -----------------------------------------------------------------------------
